@@ -243,6 +243,35 @@ func Drivers(nthreads int) []Driver {
 				*out = append(*out, obsMap(m2, d))
 			}}
 		}},
+		{"15 six-segment paths: lists of records of lists, each thread failing at its own indexes", nthreads, func() *Shared {
+			s := z.Struct(z.Schema{"rows": z.Slice(z.Struct(z.Schema{"cells": z.Slice(z.Struct(z.Schema{"tags": z.Slice(z.String().Min(3))}))}))})
+			type cell struct{ Tags []string }
+			type row struct{ Cells []cell }
+			type grid struct{ Rows []row }
+			mk := func(r, c, t int) map[string]any {
+				rows := make([]any, r+1)
+				for i := range rows {
+					cells := make([]any, c+1)
+					for j := range cells {
+						tags := make([]any, t+1)
+						for k := range tags {
+							tags[k] = "long-enough"
+						}
+						if i == r && j == c {
+							tags[t] = "x"
+						}
+						cells[j] = map[string]any{"tags": tags}
+					}
+					rows[i] = map[string]any{"cells": cells}
+				}
+				return map[string]any{"rows": rows}
+			}
+			return &Shared{Thread: func(i int, out *[]string, yield func()) {
+				var d grid
+				m := s.Parse(mk(i%3, (i*2)%3, (i+1)%4), &d)
+				*out = append(*out, obsMap(m, len(d.Rows)))
+			}}
+		}},
 		{"9 shared slice schema on long slices (12+ items), issues at high indexes", nthreads, func() *Shared {
 			s := z.Slice(z.String().Min(3)).Min(1)
 			return &Shared{Thread: func(i int, out *[]string, yield func()) {
